@@ -742,3 +742,20 @@ func ExecCall(tx *nutsdb.Tx, c Call) (r Res) {
 	os.Exit(2)
 	return
 }
+
+// OpenDir opens an existing directory (a crash image, a backup copy) as an instance.
+func OpenDir(cfg Cfg, dir string, model *State) *Inst {
+	in := &Inst{Cfg: cfg, Dir: dir, Model: model}
+	in.open()
+	return in
+}
+
+// CloseOnly closes the database without removing the directory.
+func (in *Inst) CloseOnly() error {
+	if in.DB == nil || in.Poisoned != "" {
+		return nil
+	}
+	err := in.DB.Close()
+	in.DB = nil
+	return err
+}
